@@ -124,7 +124,10 @@ def snapshot(d):
 
 def run(rep, args):
     rep.level = 'other'
-    rep.classify(rebaseline=args.rebaseline)
+    # the validating constructors: an accepted class has only constructors carrying its name; an accepted operator is unary +/- or binary
+    rep.run_proofs(['Class.__init__', 'Operator.__init__'], ['contracts.common', 'contracts.names', 'contracts.pybind', 'contracts.parser'],
+                   schema='SCHEMA', invs='')
+    pr = rep.classify(rebaseline=args.rebaseline)
     for name, ok, detail in grammar.checks():
         if 'StringEnd' in name or 'results name' in name:
             rep.structural.append((name, bool(ok), detail))
@@ -140,7 +143,11 @@ def run(rep, args):
                 rep.violation('fail:%s:%s' % (entry, bad[:30]), '%s on %r: %s' % (entry, text, bad),
                               dict(kind='no-output-on-failure', input=text, entry=entry, message=bad))
     n, k = (150, 12) if rep.tier == 'quick' else (1500, 30)
+    if pr['demoted'] or pr['regressions']:
+        n *= 3
     psc.corruption(rep, n, k)
+    from props.pyprops import report_regressions
+    report_regressions(rep, pr)
     rep.bounded['rule'] = ('token-level corruptions (delete, duplicate, swap adjacent, truncate, stray token from {}()<>;,:: x, drop one bracket) of seeded random '
                            'modules: each must be rejected, or the accepted tree re-rendered must have the corrupted token stream; plus 5 malformed inputs x 3 entry '
                            'points run in a scratch directory with earlier outputs, whose tree must be byte-identical after the failing run')
